@@ -58,7 +58,7 @@ def _gen_mat(rng, n, m, ploidy, phased):
             for ph in rng.sample(range(ploidy), dos[i][j]): mat[ph][i][j] = 1
     return mat
 
-def _gen_freq(rng, m, est, allow_bad=True):
+def _gen_freq(rng, m, est, n, allow_bad=True):
     k = rng.random()
     if k < 0.34: return None
     grid = lambda: rng.choice([rng.randint(1, 15) / 16.0, rng.randint(1, 63) / 64.0, 0.5, 0.25, 0.75])
@@ -66,7 +66,8 @@ def _gen_freq(rng, m, est, allow_bad=True):
     # (Yang divides by p(1-p): every float result rounds anyway, so coarse grids keep the model's rationals small)
     if est == "yang": ugly = (lambda: rng.randint(1, 1023) / 1024.0) if m <= 6 else grid
     else: ugly = lambda: rng.randint(2 ** 14, 2 ** 20 - 2 ** 14) / float(2 ** 20)
-    classic = lambda: rng.choice([0.1, 0.3, 1.0 / 3.0, 0.7, rng.uniform(0.02, 0.98)])
+    # arbitrary binary64 values (53-bit numerators) only for few taxa: the exact inverse / LDL' in Coq grow with n
+    classic = (lambda: rng.choice([0.1, 0.3, 1.0 / 3.0, 0.7, rng.uniform(0.02, 0.98)])) if n <= 4 else ugly
     if k < 0.56:
         r = rng.random()
         if r < 0.45: return {"s": grid()}
@@ -92,12 +93,12 @@ def _gen_freq(rng, m, est, allow_bad=True):
     else: a = [grid() for _ in range(m)]
     return {"a": a}
 
-def _gen_wt(rng, m):
+def _gen_wt(rng, m, n):
     k = rng.random()
     if k < 0.3: return None
     grid = lambda: rng.randint(0, 64) / 16.0
     ugly = lambda: rng.randint(1, 2 ** 22) / float(2 ** 20)
-    classic = lambda: rng.choice([0.1, 1.0 / 3.0, 2.7, rng.uniform(0.0, 5.0)])
+    classic = (lambda: rng.choice([0.1, 1.0 / 3.0, 2.7, rng.uniform(0.0, 5.0)])) if n <= 4 else ugly
     if k < 0.5:
         r = rng.random()
         if r < 0.5: return {"s": grid()}
@@ -139,8 +140,8 @@ def _one(rng, tier, est=None, n=None, m=None, ploidy=None, phased=None):
     grp = [rng.randint(0, 3) for _ in range(n)] if lab < 0.55 or lab > 0.93 else None
     case = {"est": est, "factory": rng.random() < 0.3, "kind": "phased" if phased else "unphased", "ploidy": ploidy, "mat": mat,
             "taxa": taxa, "grp": grp, "pref": None, "wt": None}
-    if est in ("vr", "yang", "gw"): case["pref"] = _gen_freq(rng, m, est)
-    if est == "gw": case["wt"] = _gen_wt(rng, m)
+    if est in ("vr", "yang", "gw"): case["pref"] = _gen_freq(rng, m, est, n)
+    if est == "gw": case["wt"] = _gen_wt(rng, m, n)
     r = rng.random()
     if r < 0.4: sel = rng.sample(range(n), n)
     elif r < 0.8: sel = rng.sample(range(n), rng.randint(1, n))
